@@ -1,4 +1,358 @@
-(* placeholder until the proofs land *)
-From Coq Require Import ZArith List.
-From PV Require Import Base.U64 C13.C13_Model C13.C13_Msg.
-Lemma placeholder : True. Proof. exact I. Qed.
+(* C13_Proofs.v — list/socket lemmas and the BodyReadStream theorems
+   (body_length_exact, body_close_delimited_exact). *)
+From Coq Require Import ZArith List Bool Lia.
+From PV Require Import Base.U64 C13.C13_Model.
+Import ListNotations.
+Local Open Scope Z_scope.
+
+Ltac splits := repeat match goal with |- _ /\ _ => split end.
+
+(* ------------------------------------------------------------ list lemmas -- *)
+Lemma zlen_nonneg {A} (l : list A) : 0 <= zlen l.
+Proof. unfold zlen. lia. Qed.
+Lemma zlen_nil {A} : zlen (@nil A) = 0. Proof. reflexivity. Qed.
+Lemma zlen_cons {A} (x : A) l : zlen (x :: l) = 1 + zlen l.
+Proof. unfold zlen. cbn [length]. lia. Qed.
+Lemma zlen_app {A} (a b : list A) : zlen (a ++ b) = zlen a + zlen b.
+Proof. unfold zlen. rewrite app_length. lia. Qed.
+Lemma zlen_zero_nil {A} (l : list A) : zlen l = 0 -> l = [].
+Proof. destruct l; [reflexivity|]. rewrite zlen_cons. pose proof (zlen_nonneg l). lia. Qed.
+
+Lemma ztake_nonpos {A} n (l : list A) : n <= 0 -> ztake n l = [].
+Proof. intros H. unfold ztake. replace (Z.to_nat n) with 0%nat by lia. reflexivity. Qed.
+Lemma zdrop_nonpos {A} n (l : list A) : n <= 0 -> zdrop n l = l.
+Proof. intros H. unfold zdrop. replace (Z.to_nat n) with 0%nat by lia. reflexivity. Qed.
+Lemma ztake_all {A} n (l : list A) : zlen l <= n -> ztake n l = l.
+Proof. intros H. unfold ztake, zlen in *. apply firstn_all2. lia. Qed.
+Lemma zdrop_all {A} n (l : list A) : zlen l <= n -> zdrop n l = [].
+Proof. intros H. unfold zdrop, zlen in *. apply skipn_all2. lia. Qed.
+Lemma ztake_zdrop_id {A} n (l : list A) : ztake n l ++ zdrop n l = l.
+Proof. apply firstn_skipn. Qed.
+Lemma ztake_app_le {A} n (a b : list A) : n <= zlen a -> ztake n (a ++ b) = ztake n a.
+Proof.
+  intros H. unfold ztake, zlen in *. rewrite firstn_app.
+  replace (Z.to_nat n - length a)%nat with 0%nat by lia. cbn. apply app_nil_r.
+Qed.
+Lemma zdrop_app_le {A} n (a b : list A) : n <= zlen a -> zdrop n (a ++ b) = zdrop n a ++ b.
+Proof.
+  intros H. unfold zdrop, zlen in *. rewrite skipn_app.
+  replace (Z.to_nat n - length a)%nat with 0%nat by lia. reflexivity.
+Qed.
+Lemma ztake_app_ge {A} n (a b : list A) : zlen a <= n -> ztake n (a ++ b) = a ++ ztake (n - zlen a) b.
+Proof.
+  intros H. unfold ztake, zlen in *. rewrite firstn_app.
+  rewrite firstn_all2 by lia. f_equal. f_equal. lia.
+Qed.
+Lemma zdrop_app_ge {A} n (a b : list A) : zlen a <= n -> zdrop n (a ++ b) = zdrop (n - zlen a) b.
+Proof.
+  intros H. unfold zdrop, zlen in *. rewrite skipn_app.
+  rewrite skipn_all2 by lia. cbn. f_equal. lia.
+Qed.
+Lemma zlen_ztake {A} n (l : list A) : 0 <= n <= zlen l -> zlen (ztake n l) = n.
+Proof. intros H. unfold ztake, zlen in *. rewrite firstn_length. lia. Qed.
+Lemma zlen_zdrop {A} n (l : list A) : 0 <= n <= zlen l -> zlen (zdrop n l) = zlen l - n.
+Proof. intros H. unfold zdrop, zlen in *. rewrite skipn_length. lia. Qed.
+Lemma zdrop_zdrop {A} a b (l : list A) : 0 <= a -> 0 <= b -> zdrop a (zdrop b l) = zdrop (a + b) l.
+Proof.
+  intros Ha Hb. unfold zdrop.
+  replace (Z.to_nat (a + b)) with (Z.to_nat b + Z.to_nat a)%nat by lia.
+  generalize (Z.to_nat a) as x. generalize (Z.to_nat b) as y. clear.
+  intros y. revert l. induction y as [|y IH]; intros l x; [reflexivity|].
+  destruct l as [|h l]; cbn [Nat.add skipn]; [apply skipn_nil|apply IH].
+Qed.
+Lemma ztake_add {A} a b (l : list A) : 0 <= a -> 0 <= b ->
+  ztake (a + b) l = ztake a l ++ ztake b (zdrop a l).
+Proof.
+  intros Ha Hb. unfold ztake, zdrop.
+  replace (Z.to_nat (a + b)) with (Z.to_nat a + Z.to_nat b)%nat by lia.
+  revert l. induction (Z.to_nat a) as [|k IH]; intros l; [reflexivity|].
+  destruct l as [|x l]; cbn [Nat.add firstn skipn app].
+  - rewrite firstn_nil. reflexivity.
+  - f_equal. apply IH.
+Qed.
+Lemma ztake_ztake {A} a b (l : list A) : a <= b -> ztake a (ztake b l) = ztake a l.
+Proof.
+  intros H. unfold ztake. rewrite firstn_firstn. f_equal. lia.
+Qed.
+
+(* ------------------------------------------------------------------ socket -- *)
+Lemma total_len_cons p ps : total_len (p :: ps) = zlen p + total_len ps.
+Proof. unfold total_len. cbn [concat]. apply zlen_app. Qed.
+
+(* read with enough bytes in flight: exactly `count` bytes, whatever the fragmentation *)
+Lemma sk_read_enough ps : forall err count,
+  0 <= count <= total_len ps ->
+  exists ps', sk_read ps err count = (count, ztake count (concat ps), ps')
+              /\ concat ps' = zdrop count (concat ps).
+Proof.
+  induction ps as [|p rest IH]; intros err count H.
+  - unfold total_len in H. cbn in H. assert (count = 0) by lia. subst.
+    exists []. cbn. split; reflexivity.
+  - cbn [sk_read]. rewrite total_len_cons in H. pose proof (zlen_nonneg p) as Hp.
+    destruct (Z.leb_spec count 0) as [H0|H0].
+    + assert (count = 0) by lia. subst. exists (p :: rest).
+      rewrite ztake_nonpos, zdrop_nonpos by lia. split; reflexivity.
+    + destruct (Z.ltb_spec count (zlen p)) as [H1|H1].
+      * exists (zdrop count p :: rest). cbn [concat].
+        rewrite ztake_app_le, zdrop_app_le by lia. split; reflexivity.
+      * destruct (IH err (count - zlen p)) as (ps' & E & C); [lia|].
+        rewrite E. destruct (Z.ltb_spec (count - zlen p) 0) as [H2|H2]; [lia|].
+        exists ps'. cbn [concat]. rewrite ztake_app_ge, zdrop_app_ge by lia.
+        split; [|exact C]. f_equal. f_equal. lia.
+Qed.
+
+(* read at EOF (no error): everything that is left, then the script is empty *)
+Lemma sk_read_short ps : forall count,
+  total_len ps < count ->
+  exists ps', sk_read ps false count = (total_len ps, concat ps, ps') /\ concat ps' = [].
+Proof.
+  induction ps as [|p rest IH]; intros count H.
+  - unfold total_len in *. cbn in *. destruct (Z.leb_spec count 0); [lia|].
+    exists []. split; reflexivity.
+  - cbn [sk_read]. rewrite total_len_cons in *. pose proof (zlen_nonneg p) as Hp.
+    pose proof (zlen_nonneg (concat rest)) as Hr. fold (total_len rest) in Hr.
+    destruct (Z.leb_spec count 0); [lia|].
+    destruct (Z.ltb_spec count (zlen p)); [lia|].
+    destruct (IH (count - zlen p)) as (ps' & E & C); [lia|].
+    rewrite E. destruct (Z.ltb_spec (total_len rest) 0); [lia|].
+    exists ps'. split; [reflexivity|exact C].
+Qed.
+
+(* ---------------------------------------------------------- BodyReadStream -- *)
+Definition brs_data (s : brs) : bytes := b_partial s ++ concat (b_ps s).
+
+(* One read in Content-Length mode, body completely available. *)
+Lemma brs_read_len_step s count :
+  b_cd s = false -> 0 <= count ->
+  0 <= b_remain s <= zlen (brs_data s) -> b_remain s < W64 ->
+  let n := Z.min count (b_remain s) in
+  exists s', brs_read s count = (n, ztake n (brs_data s), s')
+    /\ b_cd s' = false /\ b_err s' = b_err s
+    /\ b_remain s' = b_remain s - n
+    /\ brs_data s' = zdrop n (brs_data s)
+    /\ concat (b_ps s') = zdrop (Z.max 0 (n - zlen (b_partial s))) (concat (b_ps s)).
+Proof.
+  intros Hcd Hc Hr Hw n. unfold brs_read. rewrite Hcd. cbn [negb andb].
+  pose proof (zlen_nonneg (b_partial s)) as Hp.
+  assert (Hn : (if b_remain s <? count then b_remain s else count) = n).
+  { unfold n. destruct (Z.ltb_spec (b_remain s) count); lia. }
+  rewrite Hn. clear Hn.
+  unfold brs_data in *. rewrite zlen_app in Hr.
+  set (rfr := Z.min n (zlen (b_partial s))).
+  assert (Hrfr : 0 <= rfr <= n) by (unfold rfr, n; lia).
+  destruct (Z.ltb_spec 0 (n - rfr)) as [Hpos|Hzero].
+  - (* the partial body is exhausted, the rest comes from the socket *)
+    assert (Hfull : rfr = zlen (b_partial s)) by (unfold rfr in *; lia).
+    destruct (sk_read_enough (b_ps s) (b_err s) (n - rfr)) as (ps' & E & C).
+    { unfold total_len. unfold n in *. lia. }
+    rewrite E. destruct (Z.ltb_spec (n - rfr) 0); [lia|].
+    eexists. split; [|cbn [b_cd b_err b_remain b_partial b_ps]; splits].
+    + f_equal. f_equal; [lia|].
+      rewrite ztake_app_ge by lia. rewrite Hfull, ztake_all by lia. reflexivity.
+    + unfold wrap. rewrite !Z.mod_small; unfold n in *; lia.
+    + rewrite Hfull, zdrop_all by lia. cbn [app]. rewrite C.
+      rewrite zdrop_app_ge by lia. f_equal. lia.
+    + rewrite C. f_equal. lia.
+  - (* served from the partial body alone *)
+    assert (Hrn : rfr = n) by lia.
+    eexists. split; [|cbn [b_cd b_err b_remain b_partial b_ps]; splits].
+    + rewrite Hrn. f_equal. f_equal. rewrite ztake_app_le by (unfold rfr in *; lia). reflexivity.
+    + rewrite Hrn. unfold wrap. rewrite Z.mod_small; unfold n in *; lia.
+    + rewrite Hrn. rewrite zdrop_app_le by (unfold rfr in *; lia). reflexivity.
+    + rewrite zdrop_nonpos; [reflexivity|]. unfold rfr in *. lia.
+Qed.
+
+(* a sequence of reads *)
+Fixpoint brs_run (s : brs) (counts : list Z) : list (Z * bytes) * brs :=
+  match counts with
+  | [] => ([], s)
+  | c :: t => let '(r, o, s1) := brs_read s c in
+              let '(l, s2) := brs_run s1 t in ((r, o) :: l, s2)
+  end.
+Definition rets (l : list (Z * bytes)) : list Z := map fst l.
+Definition outs (l : list (Z * bytes)) : bytes := concat (map snd l).
+Fixpoint zsum (l : list Z) : Z := match l with [] => 0 | x :: t => x + zsum t end.
+
+Lemma zsum_nonneg l : Forall (fun c => 0 <= c) l -> 0 <= zsum l.
+Proof. induction 1; cbn; lia. Qed.
+
+Lemma brs_run_len s : forall counts,
+  b_cd s = false -> Forall (fun c => 0 <= c) counts ->
+  0 <= b_remain s <= zlen (brs_data s) -> b_remain s < W64 ->
+  let '(l, s') := brs_run s counts in
+  let n := Z.min (zsum counts) (b_remain s) in
+  outs l = ztake n (brs_data s)
+  /\ zsum (rets l) = n
+  /\ Forall2 (fun r o => r = zlen o) (rets l) (map snd l)
+  /\ b_cd s' = false /\ b_remain s' = b_remain s - n
+  /\ brs_data s' = zdrop n (brs_data s).
+Proof.
+  intros counts. revert s. induction counts as [|c t IH]; intros s Hcd Hall Hr Hw.
+  - cbn. rewrite Z.min_l by lia. rewrite ztake_nonpos, zdrop_nonpos by lia.
+    splits; try constructor; lia.
+  - inversion Hall as [|? ? Hc Ht]; subst. cbn [brs_run].
+    destruct (brs_read_len_step s c Hcd Hc Hr Hw) as (s1 & E & Hcd1 & _ & Hrem1 & Hdata1 & _).
+    rewrite E.
+    set (n1 := Z.min c (b_remain s)) in *.
+    assert (Hn1 : 0 <= n1 <= b_remain s) by (unfold n1; lia).
+    assert (Hr1 : 0 <= b_remain s1 <= zlen (brs_data s1)).
+    { rewrite Hrem1, Hdata1, zlen_zdrop by lia. lia. }
+    assert (Hw1 : b_remain s1 < W64) by lia.
+    specialize (IH s1 Hcd1 Ht Hr1 Hw1). destruct (brs_run s1 t) as [l s2].
+    destruct IH as (Ho & Hs & Hf & Hcd2 & Hrem2 & Hdata2).
+    pose proof (zsum_nonneg t Ht) as Hst.
+    cbn [zsum]. set (n := Z.min (c + zsum t) (b_remain s)).
+    assert (Hsplit : n = n1 + Z.min (zsum t) (b_remain s1)) by (unfold n, n1 in *; lia).
+    unfold outs, rets in *. cbn [map concat fst snd zsum].
+    splits.
+    + rewrite Ho, Hdata1, Hsplit. rewrite ztake_add by lia. reflexivity.
+    + rewrite Hs. lia.
+    + constructor; [|exact Hf]. rewrite zlen_ztake; [reflexivity|]. lia.
+    + exact Hcd2.
+    + rewrite Hrem2, Hrem1. lia.
+    + rewrite Hdata2, Hdata1, zdrop_zdrop by lia. f_equal. lia.
+Qed.
+
+(* Content-Length framing: for every partial body, every fragmentation `ps` of the rest
+   of the stream (which may continue beyond the body), every sequence of read sizes:
+   the concatenation of the results is the prefix of the body, every result has exactly
+   the length it reports, nothing beyond the body is taken from the socket, and once the
+   body is exhausted every further read returns 0 (end of body). *)
+Lemma body_length_exact_proof :
+  forall (partial : bytes) (ps : pieces) (err : bool) (n : Z) (counts : list Z),
+    0 <= n < MAX64 -> n <= zlen (partial ++ concat ps) ->
+    Forall (fun c => 0 <= c) counts ->
+    let body := ztake n (partial ++ concat ps) in
+    let '(l, s') := brs_run (brs_init partial n ps err) counts in
+    outs l = ztake (zsum counts) body
+    /\ Forall2 (fun r o => r = zlen o) (rets l) (map snd l)
+    /\ brs_data s' = zdrop (Z.min (zsum counts) n) (partial ++ concat ps)
+    /\ (n <= zsum counts -> forall c, 0 <= c -> exists s'', brs_read s' c = (0, [], s'')).
+Proof.
+  intros partial ps err n counts Hn Hlen Hall body.
+  assert (Hcd : b_cd (brs_init partial n ps err) = false).
+  { cbn. destruct (Z.eqb_spec n MAX64); [lia|reflexivity]. }
+  pose proof (brs_run_len (brs_init partial n ps err) counts Hcd Hall) as H.
+  cbn [brs_init b_remain] in H. unfold brs_data at 1 in H. cbn [b_partial b_ps] in H.
+  specialize (H ltac:(lia) ltac:(unfold MAX64, W64 in *; lia)).
+  destruct (brs_run (brs_init partial n ps err) counts) as [l s'].
+  destruct H as (Ho & Hs & Hf & Hcd' & Hrem & Hdata).
+  unfold brs_data at 1 in Ho. unfold brs_data at 2 in Hdata. cbn [brs_init b_partial b_ps] in *.
+  pose proof (zsum_nonneg counts Hall) as Hsum.
+  splits.
+  - rewrite Ho. unfold body. destruct (Z.min_spec (zsum counts) n) as [[? ->]|[? ->]].
+    + rewrite ztake_ztake by lia. reflexivity.
+    + rewrite (ztake_all (zsum counts)); [reflexivity|]. rewrite zlen_ztake; lia.
+  - exact Hf.
+  - exact Hdata.
+  - intros Hge c Hc.
+    assert (Hrem0 : b_remain s' = 0) by lia.
+    assert (Hr' : 0 <= b_remain s' <= zlen (brs_data s')) by (pose proof (zlen_nonneg (brs_data s')); lia).
+    destruct (brs_read_len_step s' c Hcd' Hc Hr' ltac:(unfold W64; lia)) as (s'' & E & _).
+    rewrite Hrem0 in E. rewrite Z.min_r in E by lia. rewrite ztake_nonpos in E by lia.
+    exists s''. exact E.
+Qed.
+
+(* ---- close-delimited mode ---- *)
+Lemma brs_read_cd_step s count :
+  b_cd s = true -> b_err s = false -> 0 <= count ->
+  let n := Z.min count (zlen (brs_data s)) in
+  exists s', brs_read s count = (n, ztake n (brs_data s), s')
+    /\ b_cd s' = true /\ b_err s' = false
+    /\ brs_data s' = zdrop n (brs_data s).
+Proof.
+  intros Hcd Herr Hc n. unfold brs_read. rewrite Hcd, Herr. cbn [negb andb].
+  pose proof (zlen_nonneg (b_partial s)) as Hp.
+  pose proof (zlen_nonneg (concat (b_ps s))) as Hq.
+  unfold brs_data in *. rewrite zlen_app in n.
+  set (rfr := Z.min count (zlen (b_partial s))).
+  destruct (Z.ltb_spec 0 (count - rfr)) as [Hpos|Hzero].
+  - assert (Hfull : rfr = zlen (b_partial s)) by (unfold rfr in *; lia).
+    destruct (Z.le_gt_cases (count - rfr) (total_len (b_ps s))) as [Hen|Hsh].
+    + destruct (sk_read_enough (b_ps s) false (count - rfr)) as (ps' & E & C); [lia|].
+      rewrite E. destruct (Z.ltb_spec (count - rfr) 0); [lia|].
+      assert (Hn : n = count) by (unfold n, total_len in *; lia).
+      eexists. split; [|cbn [b_cd b_err b_partial b_ps]; splits].
+      * f_equal. f_equal; [lia|]. rewrite Hn, ztake_app_ge by lia.
+        rewrite Hfull, ztake_all by lia. reflexivity.
+      * rewrite Hfull, zdrop_all by lia. cbn [app]. rewrite C, Hn, zdrop_app_ge by lia.
+        f_equal. lia.
+    + destruct (sk_read_short (b_ps s) (count - rfr)) as (ps' & E & C); [lia|].
+      rewrite E. pose proof (zlen_nonneg (concat (b_ps s))).
+      destruct (Z.ltb_spec (total_len (b_ps s)) 0); [unfold total_len in *; lia|].
+      assert (Hn : n = zlen (b_partial s) + zlen (concat (b_ps s))) by (unfold n, total_len in *; lia).
+      eexists. split; [|cbn [b_cd b_err b_partial b_ps]; splits].
+      * f_equal. f_equal; [unfold total_len; lia|].
+        rewrite Hfull, (ztake_all (zlen (b_partial s))) by lia.
+        rewrite Hn, ztake_all by (rewrite zlen_app; lia). reflexivity.
+      * rewrite Hfull, zdrop_all by lia. rewrite C, Hn, zdrop_all by (rewrite zlen_app; lia). reflexivity.
+  - assert (Hrn : rfr = count) by (unfold rfr in *; lia).
+    assert (Hn : n = count) by (unfold n, rfr in *; lia).
+    eexists. split; [|cbn [b_cd b_err b_partial b_ps]; splits].
+    + rewrite Hrn, Hn. f_equal. f_equal. rewrite ztake_app_le by (unfold rfr in *; lia). reflexivity.
+    + rewrite Hrn, Hn. rewrite zdrop_app_le by (unfold rfr in *; lia). reflexivity.
+Qed.
+
+Lemma brs_run_cd s : forall counts,
+  b_cd s = true -> b_err s = false -> Forall (fun c => 0 <= c) counts ->
+  let '(l, s') := brs_run s counts in
+  let n := Z.min (zsum counts) (zlen (brs_data s)) in
+  outs l = ztake n (brs_data s)
+  /\ Forall2 (fun r o => r = zlen o) (rets l) (map snd l)
+  /\ b_cd s' = true /\ b_err s' = false
+  /\ brs_data s' = zdrop n (brs_data s).
+Proof.
+  intros counts. revert s. induction counts as [|c t IH]; intros s Hcd Herr Hall.
+  - cbn. pose proof (zlen_nonneg (brs_data s)). rewrite Z.min_l by lia.
+    rewrite ztake_nonpos, zdrop_nonpos by lia. splits; try constructor; assumption.
+  - inversion Hall as [|? ? Hc Ht]; subst. cbn [brs_run].
+    destruct (brs_read_cd_step s c Hcd Herr Hc) as (s1 & E & Hcd1 & Herr1 & Hdata1).
+    rewrite E. set (n1 := Z.min c (zlen (brs_data s))) in *.
+    pose proof (zlen_nonneg (brs_data s)) as Hd.
+    specialize (IH s1 Hcd1 Herr1 Ht). destruct (brs_run s1 t) as [l s2].
+    destruct IH as (Ho & Hf & Hcd2 & Herr2 & Hdata2).
+    pose proof (zsum_nonneg t Ht) as Hst.
+    assert (Hl1 : zlen (brs_data s1) = zlen (brs_data s) - n1).
+    { rewrite Hdata1, zlen_zdrop; unfold n1; lia. }
+    cbn [zsum]. set (n := Z.min (c + zsum t) (zlen (brs_data s))).
+    assert (Hsplit : n = n1 + Z.min (zsum t) (zlen (brs_data s1))) by (unfold n, n1 in *; lia).
+    unfold outs, rets in *. cbn [map concat fst snd].
+    splits.
+    + rewrite Ho, Hdata1, Hsplit. rewrite ztake_add by (unfold n1; lia). reflexivity.
+    + constructor; [|exact Hf]. rewrite zlen_ztake; [reflexivity|]. unfold n1. lia.
+    + exact Hcd2.
+    + exact Herr2.
+    + rewrite Hdata2, Hdata1, zdrop_zdrop by (unfold n1; lia). f_equal. lia.
+Qed.
+
+(* Close-delimited framing (body_remain = SIZE_MAX): for every partial body, every
+   fragmentation of the rest of the stream up to the peer's close, every read sizes: the
+   results concatenate to a prefix of partial ++ stream; once everything was delivered
+   every further read returns 0. *)
+Lemma body_close_delimited_exact_proof :
+  forall (partial : bytes) (ps : pieces) (counts : list Z),
+    Forall (fun c => 0 <= c) counts ->
+    let all := partial ++ concat ps in
+    let '(l, s') := brs_run (brs_init partial MAX64 ps false) counts in
+    outs l = ztake (zsum counts) all
+    /\ Forall2 (fun r o => r = zlen o) (rets l) (map snd l)
+    /\ (zlen all <= zsum counts -> forall c, 0 <= c -> exists s'', brs_read s' c = (0, [], s'')).
+Proof.
+  intros partial ps counts Hall all.
+  assert (Hcd : b_cd (brs_init partial MAX64 ps false) = true) by reflexivity.
+  pose proof (brs_run_cd (brs_init partial MAX64 ps false) counts Hcd eq_refl Hall) as H.
+  destruct (brs_run (brs_init partial MAX64 ps false) counts) as [l s'].
+  destruct H as (Ho & Hf & Hcd' & Herr' & Hdata).
+  unfold brs_data at 1 2 in Ho. unfold brs_data at 2 3 in Hdata. cbn [brs_init b_partial b_ps] in *.
+  fold all in Ho, Hdata. pose proof (zlen_nonneg all) as Ha. pose proof (zsum_nonneg counts Hall) as Hs.
+  splits.
+  - rewrite Ho. destruct (Z.min_spec (zsum counts) (zlen all)) as [[? ->]|[? ->]]; [reflexivity|].
+    rewrite !ztake_all by lia. reflexivity.
+  - exact Hf.
+  - intros Hge c Hc.
+    destruct (brs_read_cd_step s' c Hcd' Herr' Hc) as (s'' & E & _).
+    assert (Hz : zlen (brs_data s') = 0).
+    { rewrite Hdata, Z.min_r, zdrop_all by lia. reflexivity. }
+    rewrite Hz in E. rewrite Z.min_r in E by lia. rewrite ztake_nonpos in E by lia.
+    exists s''. exact E.
+Qed.
